@@ -310,6 +310,22 @@ func usesName(e GExpr, name string) bool {
 	return false
 }
 
+// bindsName reports whether some quantifier inside e binds name (so that substituting a path
+// rooted at name below it would be captured).
+func bindsName(e GExpr, name string) bool {
+	switch n := e.(type) {
+	case GNot:
+		return bindsName(n.E, name)
+	case GAnd:
+		return bindsName(n.L, name) || bindsName(n.R, name)
+	case GOr:
+		return bindsName(n.L, name) || bindsName(n.R, name)
+	case GColl:
+		return n.Def == name || n.Idx == name || n.Val == name || bindsName(n.Inner, name)
+	}
+	return false
+}
+
 func fragUnroll(g *Gen, n int, o *Out) {
 	for i := 0; i < n; i++ {
 		datum, root, paths := datumAndPaths(g, "bexpr")
@@ -329,6 +345,26 @@ func fragUnroll(g *Gen, n int, o *Out) {
 		if !ok {
 			continue
 		}
+		// capture hazards: the index/key name equals the first part of the collection's own
+		// selector, or a name that the body also uses for a top-level field
+		if g.r.Intn(3) == 0 && identRe.MatchString(S.Parts[0]) && !keywords[S.Parts[0]] && !strings.Contains(S.Parts[0], "/") {
+			c.Mode = "indexvalue"
+			c.Idx = S.Parts[0]
+			if c.Val == "" || c.Val == c.Idx {
+				c.Val = "v"
+			}
+			c.Def = ""
+			// a body over the element only
+			var sub []PathInfo
+			if lv.Len() > 0 {
+				sub = append(sub, PathInfo{Parts: []string{c.Val}, Val: lv.Index(0)})
+				enumPaths(lv.Index(0), "bexpr", []string{c.Val}, 2, &sub)
+			} else {
+				sub = append(sub, PathInfo{Parts: []string{c.Val}})
+			}
+			c.Inner = g.genExpr(root, "bexpr", sub, 1, false)
+			o.count("hazard:index-named-as-collection-root")
+		}
 		// the unrolling speaks about the value name only
 		valueName := ""
 		switch c.Mode {
@@ -342,6 +378,11 @@ func fragUnroll(g *Gen, n int, o *Out) {
 		}
 		if c.Mode == "indexvalue" && (usesName(c.Inner, c.Idx) || c.Idx == c.Val) {
 			o.count("index-used")
+			continue
+		}
+		if bindsName(c.Inner, S.Parts[0]) {
+			// the substitution P[S.i/x] would be captured by an inner binder: not an unrolling
+			o.count("capture-skip")
 			continue
 		}
 		rq, tq, okq := evalG(g, o, nil, c, datum)
